@@ -14,8 +14,13 @@
 (*     terminates and never processes the next datagram ("fatal" = 1);     *)
 (*     a non-negative return (datagram dropped) is fine;                   *)
 (*   - every datagram of the sequence was handled (done = n);              *)
-(*   - if the sequence ends with the well-formed datagram, it was handled  *)
-(*     exactly as when delivered alone (the listener is still usable).     *)
+(*   - if the sequence ends with the well-formed datagram, the listener is  *)
+(*     still usable: same return value as when that datagram is delivered  *)
+(*     alone, and it produces output if it does so alone (lo / ao: output  *)
+(*     present).  For the ACF-CAN listener the output is the forwarded CAN *)
+(*     frames and must be identical; for the listeners that print text the *)
+(*     exact text is not part of the property (a running counter in the    *)
+(*     output is legitimate) - a difference is reported as a note.         *)
 (***************************************************************************)
 EXTENDS Naturals, Sequences, Json, IOUtils, TLC
 Tr == ndJsonDeserialize(IOEnv.TRACE)
@@ -25,7 +30,9 @@ Safe(ev) ==
   /\ ev.status = "ok"
   /\ ev.fatal = 0
   /\ ev.done = ev.n
-  /\ (ev.lastgood = 1 => ev.last = ev.alone)
+  /\ (ev.lastgood = 1 => /\ ev.last.ret = ev.alone.ret
+                          /\ (ev.ao = 1 => ev.lo = 1)
+                          /\ (ev.listener = "can" => ev.last = ev.alone))
 TInit == l = 1
 TNext == l <= Len(Tr) /\ Safe(Tr[l]) /\ l' = l + 1
 TSpec == TInit /\ [][TNext]_l
